@@ -52,7 +52,7 @@ PLAN = {
     "C12": [("plain", 4, 16)],
     "C13": [("plain", 4, 16)],
     "C14": [("plain", 4, 16)],
-    "C15": [("plain", 4, 16), ("race", 1, 4)],
+    "C15": [("plain", 4, 16), ("race", 1, 8)],
     "C16": [("plain", 4, 16)],
     "C17": [("plain", 4, 16)],
     "C18": [("race", 4, 16), ("plain", 2, 8)],
@@ -63,12 +63,13 @@ PLAN = {
 # sanitizer builds run every n-th case of each family (they are 3-10x slower)
 SUBSAMPLE = {("cover", "quick"): 10, ("cover", "thorough"): 200, ("C18", "cover", "quick"): 4, ("C18", "cover", "thorough"): 40,
              ("race", "quick"): 8, ("asan", "quick"): 8, ("asan", "thorough"): 12, ("race", "thorough"): 4,
-             ("C18", "race", "quick"): 1, ("C18", "race", "thorough"): 1}
+             ("C18", "race", "quick"): 1, ("C18", "race", "thorough"): 1,
+             ("C15", "race", "thorough"): 16}  # C15 thorough has 30M cases; every 4th under the race detector ran > 2 h
 
 for _p in PLAN:
     PLAN[_p] = PLAN[_p] + [("cover", 1, 1)]  # statement coverage of the anchored files on a sample of the same case list (evidence of reach)
 
-WATCHDOG = {"quick": 900, "thorough": 5400}
+WATCHDOG = {"quick": 1500, "thorough": 10800}
 # per-case limit in seconds (a single generated case is milliseconds; C18 configurations and thorough C11 id sweeps are the long ones)
 CASE_LIMIT = {"default": 60, "C18": 600, "C09": 150}
 
